@@ -225,6 +225,7 @@ func (r *CheckRun) Run() (code int) {
 			defer wg.Done()
 			sem <- struct{}{}
 			defer func() { <-sem }()
+			t0u := time.Now()
 			vc := NewVCFor(P, P.Spec.Contracts[k], r.Prop)
 			vc.workDir = r.Work
 			if c := vc.contract; c != nil {
@@ -247,9 +248,13 @@ func (r *CheckRun) Run() (code int) {
 				}()
 				return vc.Generate()
 			}()
+			tGen := time.Since(t0u)
 			if err == nil {
 				vc.finish()
 				err = vc.Discharge(vc.obls, r.Work, quickMs, slowMs)
+			}
+			if r.Verbose {
+				fmt.Fprintf(os.Stderr, "unit %s: generation %.1fs (%d feasibility checks), solving %.1fs, %d obligations\n", k, tGen.Seconds(), vc.nfeas, (time.Since(t0u) - tGen).Seconds(), len(vc.obls))
 			}
 			results[i] = fres{vc: vc, obls: vc.obls, err: err}
 		}(i, k)
